@@ -10,49 +10,80 @@
   Model: `QV.Model.ZoneFile.*`.  Spec: `QV.Spec.ZoneFile` — a presentation AST with the
   writer's choices, `render…` to octets and `denote…` to records; nothing there mentions the
   parser.  The theorems have the shape  `WF p → parse (render p) = denote p`  and are staged
-  bottom-up; every stage is a theorem for ALL presentations of its kind (no bounds).
+  bottom-up; every stage is a theorem for ALL presentations of its kind (no bounds on lengths,
+  counts or nesting).
 
-  PROVED (full strength for the stated forms)
-   * integer fields; `\X` and `\DDD` escapes; domain names in any mix of raw / `\X` / `\DDD`
-     octet forms (incl. escaped dots, blanks, newlines, with the line count): absolute names,
-     relative names completed with the origin, `@`; the lexical layer on blanks, comments and
-     line ends;
-   * TYPE and CLASS fields: the mnemonics (A NS MD MF CNAME SOA MB MG MR WKS PTR HINFO MINFO MX
-     TXT AAAA SRV; IN CH HS) in any mix of upper and lower case, and `TYPEnnn` / `CLASSnnn`;
-   * RDATA (`C23_rdata_partial`): `\# len hex` for any class and type, checked against
-     `Rdata::validate`; and the typed syntaxes of A (IN), NS MD MF CNAME MB MG MR PTR (one name),
-     MX, SOA, MINFO, SRV (IN), TXT, HINFO, AAAA (IN; eight hexadecimal groups written in full, with `::` for a run of zero groups,
-     and/or ending in a dotted quad), Chaosnet A (name and octal
-     address), WKS (IN; see D18 below) —
-     names absolute, relative or `@`, in any octet forms;
-     character-strings quoted or unquoted, each octet raw, `\X` or `\DDD`, with raw newlines inside
-     quotes; all with the lines they span;
+  ══ REPORT ══
+
+  PROVED (18 theorems; `_partial` = for the presentation subset described here)
+   * integer fields (`C23_integer_field`); `\X` and `\DDD` escapes (`C23_escapes`); domain names
+     in any mix of raw / `\X` / `\DDD` octet forms, incl. escaped dots, blanks and newlines with
+     the line count: absolute names, relative names completed with the origin, `@`
+     (`C23_absolute_name`, `C23_relative_name`, `C23_name_field`);
+   * TYPE and CLASS fields (`C23_class_type_forms`, `C23_mnemonics`): the mnemonics A NS MD MF
+     CNAME SOA MB MG MR WKS PTR HINFO MINFO MX TXT AAAA SRV and IN CH HS in any mix of upper and
+     lower case, and `TYPEnnn` / `CLASSnnn`;
+   * RDATA (`C23_generic_rdata`, `C23_rdata_partial`): `\# len hex` for any class and type,
+     checked against `Rdata::validate`; the typed syntaxes of A (IN), NS MD MF CNAME MB MG MR PTR,
+     MX, SOA, MINFO, SRV (IN), TXT, HINFO, AAAA (IN: eight groups in full, `::` for a run of zero
+     groups, and/or a dotted quad at the end), Chaosnet A (name and octal address), WKS (IN:
+     address, `TCP` / `UDP` in any case or a number, any ports — `C23_wks_text`); names absolute,
+     relative or `@` in any octet forms; character-strings quoted or unquoted, each octet raw,
+     `\X` or `\DDD`, raw newlines inside quotes; all with the lines they span;
    * gaps and line ends (`C23_gaps`): between fields any mix of blanks, `(`, `)` and — inside
-     parentheses — line ends (LF or CRLF) with optional comments; at the end of a record or line
-     such a gap that closes the parentheses, an optional comment, LF or CRLF; the line count and
-     the parenthesis state follow;
-   * records assembled from these, with TTL and class each written or omitted, in either order (context
-     defaults: `$TTL` default before previous TTL; previous class), owner absolute / relative /
-     `@` / omitted (a leading blank ⇒ previous owner); all gaps of a record general (so records
-     may span lines in parentheses opened anywhere, the usual `SOA ( … )` style included);
-     `$ORIGIN`, `$TTL` and `$INCLUDE` directive lines, with general gaps too (the latter yield the include request with
-     the path — a quoted or unquoted string — and the origin given or current); blank and
-     comment-only lines; every line ending LF or CRLF, the last one possibly with the file;
-   * whole files of such entries: exactly the denoted records, in order, with line numbers
-     (`C23_records_partial`).
-  KNOWN FINDING D18 (WKS)
-     `serialize_in_wks` sets `1 << (port % 8)`; RFC 1035 §3.4.2 (bits numbered from the most
-     significant, §2.3.2) asks for `0x80 >> (port % 8)`.  `C23_wks_bitmap` proves, for all port
-     lists, that the code's bit map is the RFC's (`wksBitmap`, stated arithmetically) with every
-     octet bit-reversed, and that the repaired mask gives the RFC's; `C23_wks_bit_order_witness`
-     is the concrete record.  The model takes the order from the repository (extractor →
-     `Gen.wksMaskMsbFirst`), so the same theorems check against a repaired tree.
-     The typed syntax of WKS is in the presentation AST (`C23_wks_text`: address, `TCP` / `UDP` in
-     any case or a number, any ports, general gaps): the parser reads exactly those and hands
-     them to `serialize_in_wks`.  `C23_rdata_partial` therefore has WKS = the RFC's RDATA under
-     `WksOrderOK` (the repository's order is the RFC's, or the bit map reads the same in both
-     orders, e.g. no ports); for the other port lists the parser's result is, by D18, not what the
-     text denotes.
+     parentheses — line ends (LF or CRLF) with optional comments; at the end of a record or
+     directive such a gap that closes the parentheses, an optional comment, then LF, CRLF or the
+     end of the file; line count and parenthesis state follow;
+   * records (`C23_record_partial`): TTL and class each written or omitted, in either order
+     (defaults: `$TTL` value before the previous TTL; the previous class), owner absolute /
+     relative / `@` / omitted (leading blank ⇒ previous owner), every gap of the record general
+     (so parentheses may open anywhere, the usual `SOA ( … )` layout included); TTLs above
+     2^31 - 1 read as 0 (RFC 2181 §8);
+   * whole files (`C23_records_partial`; `exFile_ok` is a 31-line instance with every kind):
+     records, `$ORIGIN`, `$TTL` and `$INCLUDE` lines (the latter yield the include request:
+     path as quoted or unquoted string, origin given or current), blank and comment-only lines,
+     each line ending LF or CRLF, the last one possibly with the file — exactly the denoted
+     records and include requests, in order, with their line numbers;
+   * the WKS bit map (`C23_wks_bitmap`, `C23_wks_repository`, `C23_wks_bit_order_witness`): see
+     FINDING below.
+
+  ORACLE-ONLY (not in the presentation AST; exercised on every run by the correspondence
+  check, whose oracle is independent of these proofs — the harness's pretty-printer renders
+  random record lists with random choices and the expected parse is the generating list, ops
+  `zfp` / `zfw`)
+   * numbers written with a leading `+` or leading zeros (TTL, preferences, SOA counters, ports,
+     the `\#` length, octal addresses); upper-case hexadecimal digits in `\#` data and in AAAA
+     groups, AAAA groups with leading zeros; `$ORIGIN` / `$TTL` / `$INCLUDE` in lower or mixed
+     case (the AST writes numbers canonically, hexadecimal in lower case, keywords in upper case);
+   * the record lists of files that also contain malformed lines (what is yielded before the
+     first error): C24 proves validity of whatever is yielded, not equality with a denotation.
+
+  RESTRICTIONS of the proved subset (hypotheses `WF…` of the theorems)
+   * the root name `.` on its own is not a `PName` (`.abs` needs a label); an owner's text does
+     not begin with a raw `$` (it would be read as a directive: write `\$`);
+   * unquoted strings are non-empty; strings have at most 255 octets, names at most 255 octets
+     in wire form with labels of 1–63 octets (longer ones are errors, C24);
+   * comments contain no CR; a line end occurs only inside parentheses or at the end of the
+     entry; the file does not end inside parentheses;
+   * typed RDATA does not start with the two octets `\#` (that selects the RFC 3597 form);
+   * TYPE is not NULL, OPT or TSIG (rejected by the parser, C24); generic RDATA must pass
+     `Rdata::validate` for its class and type, otherwise the line is an error;
+   * WKS: see FINDING — `WksOrderOK`.
+  Model assumptions: those of C24 (the Reader's buffer abstracted to "the remaining input";
+  std's integer and address parsers re-implemented and compared on generated strings).
+
+  FINDING D18 (known, not repaired — the repository's unit test pins the behaviour)
+     `serialize_in_wks` (src/rr/rdata/std13.rs:415) sets `1 << (port % 8)`; RFC 1035 §3.4.2
+     with the bit numbering of §2.3.2 asks for `0x80 >> (port % 8)`.  `C23_wks_bitmap`: for all
+     port lists the code's bit map is the RFC's (`Spec.ZF.wksBitmap`, stated arithmetically from
+     port membership) with every octet bit-reversed, and the repaired mask gives the RFC's;
+     `C23_wks_bit_order_witness`: `a. 5 IN WKS 1.2.3.4 TCP 25` → `…00000002`, RFC `…00000040`.
+     The model takes the order from the repository (extractor → `Gen.wksMaskMsbFirst`), so all
+     theorems also check against a repaired tree.  `C23_rdata_partial` includes WKS under
+     `WksOrderOK ports`: the repository's order is the RFC's, or the bit map reads the same in
+     both orders (no ports; ports 0 and 7; …) — for the present code exactly the port lists on
+     which parser and denotation agree.  Check: op `zfw` (group `zonewks`) suppresses only the
+     pure bit-order difference; any other difference in a WKS record is a VIOLATION.
 -/
 import QV.Proofs.ZoneFile.Files
 import QV.Proofs.ZoneFile.Wks
